@@ -620,6 +620,11 @@ impl QueryEngine {
                         return None;
                     }
 
+                    // `NOT BETWEEN` accepts the rows outside [low, high]: no range to push down
+                    if between.negated {
+                        return None;
+                    }
+
                     let low = Self::convert_scalar_to_predicate_value(&between.low)?;
                     let high = Self::convert_scalar_to_predicate_value(&between.high)?;
                     Some(ColumnPredicate::Between(col.name.clone(), low, high))
